@@ -677,7 +677,7 @@ func c13count(c *core.Ctx) {
 		c.Unresolved(R, "(*json.scanner).Scan")
 	} else {
 		ok, detail := false, "no Number literal with nat and exp found"
-		ast.Inspect(d.Decl.Body, func(n ast.Node) bool {
+		inspectDeep(c, d, 2, func(_ *core.DeclSite, n ast.Node) bool {
 			cl, isCL := n.(*ast.CompositeLit)
 			if !isCL || core.ExprStr(cl.Type) != "Number" {
 				return true
